@@ -9,19 +9,12 @@
    The specification (policy_ok, tls_use_ok, known_dns_name, ...) is
    Model/TlsSpec.v, written from the property text.
 
-   FULL-STRENGTH authentication statement (what the property asks for):
-
-     forall passive peer_name peer_addr node ips dnss uris rh rn,
-       authn_refuses passive peer_name peer_addr node ips dnss uris rh rn = false ->
-       policy_ok peer_addr (known_dns_name passive peer_name peer_addr) node ips dnss uris rh rn
-
-   It is FALSE for the code as it stands (C15_authn_refuted / C15_authn_host_refuted):
-   an endpoint that has no DNS name for its peer (passive side, or active side
-   connecting to an address literal) and requires host authentication accepts a
-   certificate that carries DNS names but no IP address.  What is proved instead:
-   C15_authn_partial (the full conclusion outside exactly that input class,
-   C15_authn_host_defect_exact shows the class is exact), and the clauses that
-   hold unconditionally: C15_authn_no_contradiction, C15_authn_node. *)
+   The authentication statement is proved at full strength (C15_authn), together
+   with its three clauses separately and the converse (C15_authn_complete).
+   History: before repository commit 55f212b the host clause was false (an endpoint
+   without a DNS name for its peer that required host authentication accepted a
+   certificate carrying DNS names but no IP address); the witnesses of that defect
+   are kept in harness/corpus/C15_host_authn.json and are run first by the check. *)
 From Coq Require Import List NArith Bool.
 Import ListNotations.
 From DTN Require Import Gen.TlsPolicy Model.TlsSpec Proofs.TlsPolicyProofs.
@@ -109,48 +102,42 @@ Example C15_authn_node_nonvacuous :
   /\ authn_refuses true 1 1 21 [] [] [] false true = true.
 Proof. split; vm_compute; reflexivity. Qed.
 
-(* ---- authentication, clause 2 (host) is FALSE as stated: witness *)
-Theorem C15_authn_host_refuted :
-  exists (passive : bool) (peer_name peer_addr node : N) (ips dnss uris : list N),
-    authn_refuses passive peer_name peer_addr node ips dnss uris true false = false
-    /\ ~ (In peer_addr ips \/ exists d, known_dns_name passive peer_name peer_addr = Some d /\ In d dnss).
-Proof. exact authn_host_refuted. Qed.
-Print Assumptions C15_authn_host_refuted.
-
-Theorem C15_authn_refuted :
-  exists (passive : bool) (peer_name peer_addr node : N) (ips dnss uris : list N) (rh rn : bool),
-    authn_refuses passive peer_name peer_addr node ips dnss uris rh rn = false
-    /\ ~ policy_ok peer_addr (known_dns_name passive peer_name peer_addr) node ips dnss uris rh rn.
-Proof. exact authn_refuted. Qed.
-Print Assumptions C15_authn_refuted.
-
-(* ---- ... and it fails ONLY for: no known DNS name, DNS SANs present, no IP SAN *)
-Theorem C15_authn_host_defect_exact :
+(* ---- authentication, clause 2 (unconditional): host authentication required =>
+        an IP SAN equal to the peer address, or a DNS SAN equal to the DNS name the
+        endpoint knows for its peer, is present in the certificate *)
+Theorem C15_authn_host :
   forall (passive : bool) (peer_name peer_addr node : N) (ips dnss uris : list N) (rh rn : bool),
     authn_refuses passive peer_name peer_addr node ips dnss uris rh rn = false ->
     rh = true ->
-    ~ (In peer_addr ips \/ exists d, known_dns_name passive peer_name peer_addr = Some d /\ In d dnss) ->
-    known_dns_name passive peer_name peer_addr = None /\ dnss <> [] /\ ips = [].
-Proof. exact authn_host_defect_exact. Qed.
-Print Assumptions C15_authn_host_defect_exact.
+    In peer_addr ips \/ exists d, known_dns_name passive peer_name peer_addr = Some d /\ In d dnss.
+Proof. exact authn_host. Qed.
+Print Assumptions C15_authn_host.
+Example C15_authn_host_nonvacuous :
+  (* passive, IP SAN matches: accepted *)
+  authn_refuses true 1 1 21 [2; 1] [12] [] true false = false
+  (* passive, DNS names only (the former defect): refused *)
+  /\ authn_refuses true 1 1 21 [] [11] [] true false = true
+  (* active by address literal, DNS names only: refused *)
+  /\ authn_refuses false 1 1 21 [] [11] [] true false = true
+  (* active by name, DNS SAN matches: accepted *)
+  /\ authn_refuses false 11 1 21 [] [12; 11] [] true false = false.
+Proof. repeat split; vm_compute; reflexivity. Qed.
 
-(* ---- the strongest true form of the full statement: outside that class
-        (the endpoint has a DNS name for the peer, or the certificate has no DNS
-        SAN, or it has an IP SAN, or host authentication is not required) *)
-Theorem C15_authn_partial :
+(* ---- the full statement: a session is established under TLS (the decision does
+        not refuse) only if the certificate satisfies the whole policy *)
+Theorem C15_authn :
   forall (passive : bool) (peer_name peer_addr node : N) (ips dnss uris : list N) (rh rn : bool),
-    ((passive = false /\ peer_name <> peer_addr) \/ dnss = [] \/ ips <> [] \/ rh = false) ->
     authn_refuses passive peer_name peer_addr node ips dnss uris rh rn = false ->
     policy_ok peer_addr (known_dns_name passive peer_name peer_addr) node ips dnss uris rh rn.
-Proof. exact authn_partial. Qed.
-Print Assumptions C15_authn_partial.
-Example C15_authn_partial_nonvacuous :
+Proof. exact authn_sound. Qed.
+Print Assumptions C15_authn.
+Example C15_authn_nonvacuous :
   (* active by name, host+node required, everything matches *)
   authn_refuses false 11 1 21 [] [11] [21] true true = false
-  (* passive, IP SAN matches *)
-  /\ authn_refuses true 1 1 21 [1] [12] [] true false = false
   (* passive, host required, no SAN at all: refused *)
-  /\ authn_refuses true 1 1 21 [] [] [] true false = true.
+  /\ authn_refuses true 1 1 21 [] [] [] true false = true
+  (* nothing required, nothing presented: accepted *)
+  /\ authn_refuses true 1 1 21 [] [] [] false false = false.
 Proof. repeat split; vm_compute; reflexivity. Qed.
 
 (* ---- no over-refusal: whatever the policy allows is accepted (so the
